@@ -364,7 +364,9 @@ PAIRS = [("rec(x, k=2)", "rec(x, k=3)"), ("rec(x, 2)", "rec(x, 3)"), ("rec(x, k=
          ("rec(x, k=True)", "rec(x, k=False)"), ("rec(x, 2, k=1)", "rec(x, 2, k=2)"), ("rec(rec2(x, 1))", "rec(rec2(x, 2))"), ("rec(x, k=None)", "rec(x)"), ("I(x + 1)", "I(x + 2)"), ("rec(x, k=z)", "rec(z, k=x)"),
          # the same operands in another order are another text (for strings '+' is concatenation), other operators, other nesting
          ("rec(x + z)", "rec(z + x)"), ("I(x * z)", "I(z * x)"), ("I(x - z)", "I(z - x)"), ("I(x + z)", "I(x - z)"), ("rec(x, z)", "rec(z, x)"), ("rec(x, k=1, j=2)", "rec(x, k=2, j=1)"),
-         ("I((x + z) * 2)", "I(x + z * 2)"), ("rec(x == 1)", "rec(x != 1)"), ("rec(x < z)", "rec(x <= z)"), ("rec(-x)", "rec(x)"), ("rec(x, 'a b')", "rec(x, 'a  b')")]
+         ("I((x + z) * 2)", "I(x + z * 2)"), ("rec(x == 1)", "rec(x != 1)"), ("rec(x < z)", "rec(x <= z)"), ("rec(-x)", "rec(x)"), ("rec(x, 'a b')", "rec(x, 'a  b')"),
+         # literals that are equal in Python but of another type are other arguments; nested calls
+         ("rec(x, 1)", "rec(x, True)"), ("rec(x, 1)", "rec(x, 1.0)"), ("rec(x, 0)", "rec(x, False)"), ("rec(x, 1)", "rec(x, '1')"), ("rec(rec2(x))", "rec(x)"), ("rec(x)", "rec(rec2(x))")]
 
 
 def distinct_calls(rep):
